@@ -48,8 +48,13 @@ def inline_constant_parameters(routine, external_only=True):
     def is_inline_parameter(v):
         return hasattr(v, 'type') and v.type.parameter and v.type.initial is not None
 
+    def resolve_initial(expr):
+        # The value of a parameter may itself be defined in terms of other parameters
+        nested = {v: resolve_initial(v.type.initial) for v in FindVariables().visit(expr) if is_inline_parameter(v)}
+        return SubstituteExpressions(nested).visit(expr) if nested else expr
+
     # Create mapping for variables and imports
-    vmap = {v: v.type.initial for v in variables if is_inline_parameter(v)}
+    vmap = {v: resolve_initial(v.type.initial) for v in variables if is_inline_parameter(v)}
 
     # Replace kind parameters in variable types
     for variable in routine.variables:
